@@ -358,6 +358,50 @@ func init() {
 			}
 			return true
 		}},
+		rule{name: "secscheme:ill-formed-flow", kinds: []string{"SecurityScheme"}, expect: always(""), apply: func(n metamodel.Node, _ M, v int) bool {
+			// all four oauth2 flows declared and well-formed, except one: the violation sits in the
+			// k-th flow (every position), and is a missing URL, missing scopes or an extra field
+			for k := range n.Obj {
+				if !strings.HasPrefix(k, "x-") {
+					delete(n.Obj, k)
+				}
+			}
+			flows := M{
+				"implicit":          M{"authorizationUrl": "https://e.example/a", "scopes": M{"r": "read"}},
+				"password":          M{"tokenUrl": "https://e.example/t", "scopes": M{"r": "read"}},
+				"clientCredentials": M{"tokenUrl": "https://e.example/t", "scopes": M{}},
+				"authorizationCode": M{"authorizationUrl": "https://e.example/a", "tokenUrl": "https://e.example/t", "scopes": M{"r": "read"}},
+			}
+			names := []string{"implicit", "password", "clientCredentials", "authorizationCode"}
+			victim := flows[names[v%4]].(M)
+			switch (v / 4) % 2 {
+			case 0:
+				delete(victim, "tokenUrl")
+				if names[v%4] == "implicit" {
+					delete(victim, "authorizationUrl")
+				}
+			default:
+				delete(victim, "scopes")
+			}
+			n.Obj["type"], n.Obj["flows"] = "oauth2", flows
+			return true
+		}},
+		rule{name: "secscheme:flow-extra-field", kinds: []string{"SecurityScheme"}, expect: unless(optAllowFoo), apply: func(n metamodel.Node, _ M, v int) bool {
+			for k := range n.Obj {
+				if !strings.HasPrefix(k, "x-") {
+					delete(n.Obj, k)
+				}
+			}
+			flows := M{
+				"implicit":          M{"authorizationUrl": "https://e.example/a", "scopes": M{"r": "read"}},
+				"password":          M{"tokenUrl": "https://e.example/t", "scopes": M{"r": "read"}},
+				"clientCredentials": M{"tokenUrl": "https://e.example/t", "scopes": M{}},
+				"authorizationCode": M{"authorizationUrl": "https://e.example/a", "tokenUrl": "https://e.example/t", "scopes": M{"r": "read"}},
+			}
+			flows[[]string{"implicit", "password", "clientCredentials", "authorizationCode"}[v%4]].(M)["foo"] = "x"
+			n.Obj["type"], n.Obj["flows"] = "oauth2", flows
+			return true
+		}},
 		rule{name: "server:ill-formed", kinds: []string{"Server"}, expect: always(""), apply: func(n metamodel.Node, _ M, v int) bool {
 			switch v % 3 {
 			case 0:
